@@ -463,7 +463,7 @@ def check(res, tier, seed):
                 monitor_hits += 1
                 res.violation("hub-closures", "implementation violates C12: %s (the closure's own call is still in flight)" % vs[0],
                               dict(kind="sys", family="hub", config=r["config"], seed=r["seed"], all=vs[:6]))
-    if pid in ("C12", "C05"):
+    if pid in ("C12", "C05", "C15"):
         # black-box closure workloads: registrations after failed / cancelled / late calls, closures that stall
         from . import sys_props
         crecs, crc, cout = C.run_job(binary, wd, "closures", dict(family="sys", seed=seed, n=(16 if tier == "quick" else 300), cases=["closures"], params=dict(percase=6)), timeout=400)
@@ -475,6 +475,8 @@ def check(res, tier, seed):
             vs = sys_props.mon_c11(r)
             if pid == "C12":
                 vs = [v for v in vs if "registration" in v or "late invocation" in v or "CLOSURES-REMAIN" in v]
+            elif pid == "C15":
+                vs = [v for v in vs if "registration" in v or "CLOSURES-REMAIN" in v]
             else:
                 vs = [v for v in vs if "stalled" in v or "wedged" in v or "cancelled while" in v or "did not finish" in v or "deadlock" in v]
                 if r.get("hang"):
@@ -523,7 +525,7 @@ def check(res, tier, seed):
         from . import locksets
         srecs2, src2, sout2 = C.run_job(binary, wd, "stress", dict(family="bcast-stress", seed=seed, n=(60000 if tier == "quick" else 1500000)), timeout=600)
         for sr in srecs2:
-            if sr.get("violates") and pid in ("C03", "C15"):
+            if sr.get("violates") and pid in ("C03", "C15", "C05"):
                 monitor_hits += 1
                 res.violation("bcast-stress", "pending-call table under the real scheduler: %s (a call registered this way can never be woken: it hangs / its entry is retained)" % sr["violates"],
                               dict(kind="bcast-stress", result=sr))
